@@ -1405,6 +1405,34 @@ theorem src_player_step_is_interpreted (cfg : Cfg) (hf : some cfg.fixed = srcFix
   · rw [hst] at hen
     rw [← hen, player_step_is_skeleton cfg hfix s s' i p hp hst]; rfl
 
+open ALV.Gen.C17 in
+/-- **C17.src.12 src_main_step_is_interpreted** — the EFFECTS of `stepMain` inside a call are read
+from the regenerated methods too: at every program counter that is a yield point of `play` / `close` /
+`pause` / `play` / `stop`, for the source variant read on this run, in every state, the successor state
+of an enabled step is `mainStepEff skeleton …` = the effect of the operation the skeleton has at that
+yield point (`applyYM`: take / release the lock named there, set / clear the event of the thread object
+of the call, `pa.open`, `start()`, `terminate()`), then of the local operations the control-flow
+interpreter passes on the way to the next yield point (`applyLocalM`: `finished = True` after the
+`halting` lock is taken and the test failed, the creation of the thread object under the manager's lock,
+`_threads.append` after `pa.open`, `halting = True` of `stop()` under the thread's lock before the
+event operation) — up to the program counter, which `src_main_successor` gives, and at the last lock
+release of the call the return to the script (`State.next`).  With `src_main_successor` and the
+enabledness clauses of `src_yields_drive_the_steps`, what stays hand-written of `stepMain` is: what
+ONE operation of the vocabulary does to the state (`applyYM` / `applyLocalM`), which state fields the
+guards read (`mainGv`), the data a program counter carries (which thread), and the script level
+(`nextCmd`, the logged observation). -/
+theorem src_main_step_is_interpreted (cfg : Cfg) (hf : some cfg.fixed = srcFixed) (s s' : State)
+    (m : String) (y : Y) (t : Option Player)
+    (ht : t = match mainTarget s.mpc with
+              | some j => s.players[j]?
+              | none => none)
+    (hm : mpcMethod s.mpc = some m) (hy : mpcY true s.mpc = some y) (hs : stepMain cfg s = some s') :
+    ∃ eff, mainStepEff skeleton cfg s t m y = some eff ∧
+      if mpcReturns s.mpc then ∃ e, s' = eff.next e else { s' with mpc := s.mpc } = eff := by
+  have hfix : cfg.fixed = true := by
+    have := src_variant_is_modelled.1; rw [this] at hf; exact Option.some.inj hf
+  exact main_step_is_skeleton cfg hfix s s' m y t ht hm hy hs
+
 /-- **C17.src.8 src_shutdown** — the liveness clause for the source AS READ: for the configuration
 whose `fixed` switch is the one extracted from `lazy_io.py` on this run, `wait=False`, every schedule
 of a script that calls `close` (no `join`), continued while some thread is enabled, ends with `close`
